@@ -39,6 +39,20 @@ const (
 	mNop
 )
 
+// labels shared by the engine side and the native scheduler
+const (
+	c14LRead = "a read never yields a truncated, mixed or torn entry: it is a miss or a complete bundle"
+	c14LURL = "a read yields a bundle some writer stored for that URL"
+	c14LMiss = "a read that starts after a write for the URL has returned is not a miss"
+	c14LOlder = "a read that starts after a write for the URL has returned does not yield an older bundle"
+	c14LKey = "whatever a key name is bound to - at every cut of every execution - is a complete entry"
+	c14LW1 = "witness: a reader is served the last writer's bundle while the first writer is still at work"
+	c14LW2 = "witness: a crash inside the write leaves a partial temporary file"
+	c14LW3 = "witness: a reader misses"
+)
+
+var kindNames = []string{"create-new", "create-trunc", "open-keep", "write-half", "write-rest", "close", "rename", "remove", "stat", "open-read", "read", "nop"}
+
 type c14Step struct {
 	kind int
 	name int // index into the name table
@@ -63,9 +77,20 @@ func (n *c14Names) idx(s string) int {
 }
 
 // c14Translate turns a recorded operation log into micro-steps.
-func c14Translate(log []fskit.Op, names *c14Names, root string) []c14Step {
+func c14Translate(log []fskit.Op, names *c14Names, root string, writer bool) []c14Step {
 	var out []c14Step
+	forWriting := map[string]bool{}
 	for _, o := range log {
+		switch o.Kind {
+		case "createtemp":
+			forWriting[o.Ret] = true
+		case "create", "writefile":
+			forWriting[o.Path] = true
+		case "openfile":
+			forWriting[o.Path] = o.Flags&(os.O_WRONLY|os.O_RDWR) != 0
+		case "open":
+			forWriting[o.Path] = false
+		}
 		switch o.Kind {
 		case "mkdirall", "mkdir", "chmod", "fchmod", "fstat":
 			// directory set-up and permissions do not bear on the property
@@ -91,7 +116,10 @@ func c14Translate(log []fskit.Op, names *c14Names, root string) []c14Step {
 			i := names.idx(o.Path)
 			out = append(out, c14Step{kind: mWriteHalf, name: i}, c14Step{kind: mWriteRest, name: i})
 		case "close":
-			out = append(out, c14Step{kind: mClose, name: names.idx(o.Path)})
+			// closing a file opened for reading changes nothing and is not a step of the composed model
+			if forWriting[o.Path] {
+				out = append(out, c14Step{kind: mClose, name: names.idx(o.Path)})
+			}
 		case "rename":
 			out = append(out, c14Step{kind: mRename, name: names.idx(o.Path), to: names.idx(o.To)})
 		case "remove":
@@ -100,11 +128,21 @@ func c14Translate(log []fskit.Op, names *c14Names, root string) []c14Step {
 			i := names.idx(o.Path)
 			out = append(out, c14Step{kind: mOpenRead, name: i}, c14Step{kind: mRead, name: i})
 		case "stat", "lstat":
-			out = append(out, c14Step{kind: mStat, name: names.idx(o.Path)})
+			// a writer looking at a name (os.Rename looks at the new one) changes nothing and decides nothing in
+			// the composed model: it is left out on both sides (the native scheduler lets it through)
+			if !writer {
+				out = append(out, c14Step{kind: mStat, name: names.idx(o.Path)})
+			}
 		case "open":
 			out = append(out, c14Step{kind: mOpenRead, name: names.idx(o.Path)})
 		case "fileread", "copy":
-			out = append(out, c14Step{kind: mRead, name: names.idx(o.Path)})
+			// consecutive reads of one open file are one step (the composed model hands the whole content to
+			// the first; the native scheduler groups them the same way)
+			i := names.idx(o.Path)
+			if len(out) > 0 && out[len(out)-1].kind == mRead && out[len(out)-1].name == i {
+				continue
+			}
+			out = append(out, c14Step{kind: mRead, name: i})
 		default:
 			vr.Unsupported("file-system operation " + o.Kind + " in the extracted program")
 		}
@@ -119,7 +157,8 @@ func c14KeyShaped(root, p string) bool {
 // VsymC14 extracts the programs and decides the property over all schedules and crash points.
 func VsymC14() {
 	if !vr.Symbolic() {
-		vr.SkipNative()
+		c14Native()
+		return
 	}
 	W := vr.Param("writers", 2)
 	R := vr.Param("readers", 1)
@@ -165,7 +204,7 @@ func VsymC14() {
 		c15NowSecs = 1000
 		got, gerr := cache.Get(ctx, urlNames[u])
 		vr.Assert(gerr == nil && got != nil && string(got.BaseCRL.Raw) == string(base.der), "what was stored is read back when nothing interferes")
-		writers = append(writers, c14Prog{steps: c14Translate(log, names, root), url: u})
+		writers = append(writers, c14Prog{steps: c14Translate(log, names, root, true), url: u})
 	}
 	for r := 0; r < R; r++ {
 		fskit.Reset()
@@ -183,12 +222,16 @@ func VsymC14() {
 		serr := cache.Set(ctx, urlNames[u], &corecrl.Bundle{BaseCRL: rb.list})
 		fskit.Loud()
 		vr.Assert(serr == nil, "harness: preparing the entry the reader program is recorded on")
+		// the reader is another process: a handle of its own on the same directory
+		fskit.Quiet()
+		cache, _ = NewFileCache(root)
+		fskit.Loud()
 		fskit.FS.Log = nil
 		c15NowSecs = 1000
 		_, gerr := cache.Get(ctx, urlNames[u])
 		vr.Assert(gerr == nil, "a stored entry is read back")
 		log := fskit.FS.Log
-		steps := c14Translate(log, names, root)
+		steps := c14Translate(log, names, root, false)
 		readers = append(readers, c14Prog{steps: steps, url: u})
 	}
 	// leftover temporary files can never be mistaken for entries
@@ -196,7 +239,6 @@ func VsymC14() {
 		isKey := i == keyOf[0] || i == keyOf[1]
 		vr.Assert(isKey || !c14KeyShaped(root, n), "no temporary name is shaped like a key")
 	}
-	kindNames := []string{"create-new", "create-trunc", "open-keep", "write-half", "write-rest", "close", "rename", "remove", "stat", "open-read", "read", "nop"}
 	for w, p := range writers {
 		line := "writer" + string(rune('0'+w)) + ":"
 		for _, st := range p.steps {
@@ -259,6 +301,7 @@ func VsymC14() {
 	resProg := make([]int, R)
 	resMixed := make([]bool, R)
 	resTorn := make([]bool, R)
+	resEmpty := make([]bool, R) // the inode read holds nobody's bytes yet (created or truncated, not written)
 	resInode := make([]int, R)
 	for r := range resOwner {
 		resOwner[r] = -2
@@ -332,6 +375,9 @@ func VsymC14() {
 				case mRemove:
 					bind[s.name] = vr.IteInt(on, 0, bind[s.name])
 				case mStat:
+					if th < W {
+						break // a writer looking at a name (os.Rename does) takes an instant and changes nothing
+					}
 					r := th - W
 					cur := bind[s.name]
 					for i := 1; i < nI; i++ {
@@ -340,25 +386,30 @@ func VsymC14() {
 						statProg[r] = vr.IteInt(hit, prog[i], statProg[r])
 					}
 					statProg[r] = vr.IteInt(vr.And(on, cur == 0), -1, statProg[r])
+					// a name that is not there ends the reader with a miss, as a failing open does
+					resOwner[r] = vr.IteInt(vr.And(on, cur == 0, resOwner[r] == -2), -1, resOwner[r])
 					didStat[r] = vr.IteBool(on, true, didStat[r])
 				case mOpenRead:
 					r := th - W
 					cur := bind[s.name]
 					hnd[th] = vr.IteInt(on, cur, hnd[th])
-					openAt[r] = vr.IteInt(on, t, openAt[r])
 					// a missing file is a miss, and the reader is done
-					resOwner[r] = vr.IteInt(vr.And(on, cur == 0), -1, resOwner[r])
+					resOwner[r] = vr.IteInt(vr.And(on, cur == 0, resOwner[r] == -2), -1, resOwner[r])
 				case mRead:
 					r := th - W
 					for i := 1; i < nI; i++ {
 						hit := vr.And(on, hnd[th] == i, resOwner[r] == -2)
-						resOwner[r] = vr.IteInt(hit, owner[i], resOwner[r])
+						resEmpty[r] = vr.IteBool(vr.And(hit, owner[i] == -1), true, resEmpty[r])
+						resOwner[r] = vr.IteInt(hit, vr.IteInt(owner[i] == -1, -3, owner[i]), resOwner[r])
 						resProg[r] = vr.IteInt(hit, prog[i], resProg[r])
 						resMixed[r] = vr.IteBool(hit, mixed[i], resMixed[r])
 						resInode[r] = vr.IteInt(hit, i, resInode[r])
 						// a size taken from an earlier stat of the name that no longer describes what is read
 						resTorn[r] = vr.IteBool(vr.And(hit, didStat[r], vr.Or(statOwner[r] != owner[i], statProg[r] != prog[i])), true, resTorn[r])
 					}
+				}
+				if th >= W && p == 0 {
+					openAt[th-W] = vr.IteInt(on, t, openAt[th-W]) // the instant the read starts
 				}
 				last := p == len(steps)-1
 				if th < W && last {
@@ -377,14 +428,14 @@ func VsymC14() {
 		for w := 0; w < W; w++ {
 			ownerURL = vr.IteInt(resOwner[r] == w, writers[w].url, ownerURL)
 		}
-		vr.Assert(vr.Implies(read, vr.And(resProg[r] == 2, !resMixed[r], !resTorn[r])), "a read never yields a truncated, mixed or torn entry: it is a miss or a complete bundle")
-		vr.Assert(vr.Implies(read, ownerURL == u), "a read yields a bundle some writer stored for that URL")
+		vr.Assert(vr.And(vr.Implies(read, vr.And(resProg[r] == 2, !resMixed[r], !resTorn[r])), !resEmpty[r]), c14LRead)
+		vr.Assert(vr.Implies(read, ownerURL == u), c14LURL)
 		for w := 0; w < W; w++ {
 			if writers[w].url != u {
 				continue
 			}
 			after := vr.And(doneAt[w] != 0, openAt[r] != 0, doneAt[w] < openAt[r])
-			vr.Assert(vr.Implies(after, resOwner[r] != -1), "a read that starts after a write for the URL has returned is not a miss")
+			vr.Assert(vr.Implies(after, resOwner[r] != -1), c14LMiss)
 			// ... and not older than that write: the entry read was renamed into place no earlier than w's
 			wRen := 0
 			for i := 1; i < nI; i++ {
@@ -394,7 +445,7 @@ func VsymC14() {
 			for i := 1; i < nI; i++ {
 				rRen = vr.IteInt(resInode[r] == i, renAt[i], rRen)
 			}
-			vr.Assert(vr.Implies(vr.And(after, read, wRen != 0), rRen >= wRen), "a read that starts after a write for the URL has returned does not yield an older bundle")
+			vr.Assert(vr.Implies(vr.And(after, read, wRen != 0), rRen >= wRen), c14LOlder)
 		}
 	}
 	// after any crash, what sits under a key name is complete
@@ -403,7 +454,7 @@ func VsymC14() {
 			continue
 		}
 		for i := 1; i < nI; i++ {
-			vr.Assert(vr.Implies(bind[k] == i, vr.And(prog[i] == 2, !mixed[i])), "whatever a key name is bound to - at every cut of every execution - is a complete entry")
+			vr.Assert(vr.Implies(bind[k] == i, vr.And(prog[i] == 2, !mixed[i])), c14LKey)
 		}
 	}
 	vr.Reach("all schedules decided")
@@ -415,7 +466,7 @@ func VsymC14() {
 		}
 	}
 	if vr.Fork(vr.And(lw > 0, resOwner[0] == lw, doneAt[0] == 0, crash[0] == len(writers[0].steps))) {
-		vr.Reach("witness: a reader is served the last writer's bundle while the first writer is still at work")
+		vr.Reach(c14LW1)
 		return
 	}
 	partialTemp := false
@@ -427,11 +478,11 @@ func VsymC14() {
 		}
 	}
 	if vr.Fork(partialTemp) {
-		vr.Reach("witness: a crash inside the write leaves a partial temporary file")
+		vr.Reach(c14LW2)
 		return
 	}
 	if vr.Fork(resOwner[0] == -1) {
-		vr.Reach("witness: a reader misses")
+		vr.Reach(c14LW3)
 	}
 }
 
